@@ -195,3 +195,34 @@ package scheduling
 //@   loop 2 invariant [valid] forall v string {v in validDomains} :: (v in validDomains) ==> (tgHas(t, v) && scheduling.admits(nodeDomains, v) && tgSkewOK(t, v, self, gmin))
 //@   loop 2 invariant [mind] minDomain == "" || ((minDomain in validDomains) && minCount == tgCnt(t, minDomain) + self)
 //@   loop 2 invariant [least] forall w string {w in validDomains} :: (w in validDomains) ==> minCount <= tgCnt(t, w) + self
+
+// ---- owners: the pods governed by the group ----
+//@ func (*TopologyGroup).IsOwnedBy
+//@   prop C02
+//@   modifies nothing
+//@   ensures [exact] result <==> (key in t.owners)
+
+//@ func (*TopologyGroup).AddOwner
+//@   prop C02
+//@   nopanic
+//@   repinv [maps] tgMaps(t)
+//@   repinv [nonneg] tgNonNeg(t)
+//@   repinv [index] tgIndex(t)
+//@   modifies t.owners[:]
+//@   ensures [exact] forall k types.UID {k in t.owners} :: (k in t.owners) <==> (k == key || old(k in t.owners))
+
+//@ func (*TopologyGroup).RemoveOwner
+//@   prop C02
+//@   nopanic
+//@   repinv [maps] tgMaps(t)
+//@   repinv [nonneg] tgNonNeg(t)
+//@   repinv [index] tgIndex(t)
+//@   modifies t.owners[:]
+//@   ensures [exact] forall k types.UID {k in t.owners} :: (k in t.owners) <==> (k != key && old(k in t.owners))
+
+// Counts: the pod would be counted by the group on a node with these taints / requirements: it is selected by the
+// group's selector in one of its namespaces and the node passes the group's node filter.
+//@ func (*TopologyGroup).selects
+//@   prop C02
+//@   modifies nothing
+//@   ensures [exact] result <==> ((pod.Namespace in t.namespaces) && selMatches(t.selector, pod.Labels))
